@@ -856,8 +856,8 @@ int vorbis_synthesis_blockin(vorbis_dsp_state *v,vorbis_block *vb){
 
       v->granulepos=vb->granulepos;
 
-      /* is this a short page? */
-      if(b->sample_count>v->granulepos){
+      /* is this a short page? (a track-only block has no PCM to trim) */
+      if(vb->pcm && b->sample_count>v->granulepos){
         /* corner case; if this is both the first and last audio page,
            then spec says the end is cut, not beginning */
        long extra=b->sample_count-vb->granulepos;
